@@ -41,6 +41,7 @@ HID = "::rules::hidden::"
 
 
 def run(rep, tier):
+    entry(rep)
     rep.explanation = (
         "programs = rule functions of the meta-grammar parser (+ skip, enum, dispatch); each is compared between "
         "the fresh expansion and the checked-in file after reduction to combinator terms.")
@@ -137,6 +138,44 @@ def run(rep, tier):
     rep.extra["programs"] = programs
     rep.extra["disagreements_checked"] = dis
     rep.extra["samples"] = samples or [{"note": "no programs"}]
+
+
+def entry(rep):
+    r = rep.rule("C14.ENTRY", 1,
+                 "pest_meta::parser::parse(rule, text) is the checked-in parser and nothing else: on every path it returns "
+                 "PestParser::parse(rule, text) with both parameters passed on unchanged (through immutable lets only)")
+    meta = facts.facts("default").crate("pest_meta")
+    fn = meta.fn("pest_meta::parser::parse") if meta else None
+    if fn is None:
+        r.lost("pest_meta::parser::parse")
+        return
+    params = [p["id"] for p in fn["params"] if p.get("k") == "PBind"]
+    lets = hirq.lets(fn["body"])
+    modes = hirq.binding_modes(fn)
+
+    def res(n):
+        n = hirq.peel(n)
+        d = 0
+        while d < 6 and hirq.kind(n) == "Path" and n.get("res") == "local" and n["id"] in lets and not modes.get(n["id"]):
+            n = hirq.peel(lets[n["id"]][0])
+            d += 1
+        return n
+    leaves = hirq.tail_leaves(fn["body"]) + [x["e"] for x in hirq.walk(fn["body"]) if hirq.kind(x) == "Ret" and x.get("e")]
+    for leaf in leaves:
+        v = res(leaf)
+        r.instance("return", hirq.where(leaf))
+        ok = (hirq.kind(v) == "Call" and hirq.callee(v) == "pest::parser::Parser::parse"
+              and "PestParser" in " ".join(v["f"].get("targs", [])) and len(v["args"]) == 2)
+        if ok:
+            a = [res(x) for x in v["args"]]
+            ok = all(hirq.kind(x) == "Path" and x.get("res") == "local" for x in a) and [x["id"] for x in a] == params[:2]
+        if not ok:
+            r.violation("return", hirq.where(leaf),
+                        "parser::parse does not return PestParser::parse(rule, data) on its own parameters (%s): the "
+                        "entry point then accepts or locates differently from the grammar file run any other way"
+                        % hirq.expr_text(leaf)[:100])
+    if not leaves:
+        r.lost("return value of parser::parse")
 
 
 def term_of(fn):
